@@ -328,8 +328,15 @@ AcceptCastItem(c, trk, call, o) ==
                \* a variable-length target type truthfully computing its element count cannot accept an undersized or ragged tag
                /\ (call.to # "generic" /\ K.dst => it.size >= K.base /\ (it.size - K.base) % K.elem = 0)
        ELSE IF w.fin = "none" THEN o.k = "none" ELSE o.k = "panic"
+\* ref_from_slice on the whole image as a generic tag, then cast to a sized user-defined type
+AcceptSliceCast(c, call, o) ==
+  LET d == Declared(c, HTAG)  s == RefFromSliceSpec(HTAG, Len(c.mem), Al(c), d) IN
+  IF s.k = "err" THEN o.k = "err"
+  ELSE IF s.k = "free" THEN Controlled(o)
+  ELSE o.k = "panic" \/ (o.k = "some" /\ o.v.at = 0 /\ o.v.sv = RoundUp8(d))
 C15_Accept(c, trk, call, o) ==
-  IF call.op = "cast_item" THEN AcceptCastItem(c, trk, call, o)
+  IF call.op = "slice_cast" THEN AcceptSliceCast(c, call, o)
+  ELSE IF call.op = "cast_item" THEN AcceptCastItem(c, trk, call, o)
   ELSE IF call.op = "custom_get" THEN (IF trk.loaded # "bi" THEN o.k = "skipped" ELSE AcceptCustomGet(c, call, o))
   \* the typed view's fields alias the tag's bytes: whatever an accessor hands out lies inside the (rounded) tag
   ELSE IF call.op \in {"field", "str", "area"} /\ trk.loaded = "bi" THEN
@@ -890,6 +897,13 @@ DesignStep(c0, ds, call) ==
          LET v == ChecksumBytes(call.magic, U32Bytes(call.arch), call.length) IN
          [o |-> [k |-> "val", v |-> v, twin |-> v], ds |-> ds]
     [] call.op = "custom_get" -> [o |-> IF ds.loaded # "bi" THEN Skipped ELSE DesignCustomGet(c, call), ds |-> ds]
+    [] call.op = "slice_cast" ->
+         LET d == Declared(c, HTAG)  r == DesignRefFromSlice(HTAG, Len(c.mem), Al(c), d) IN
+         [o |-> IF r.k # "ok" THEN r
+                ELSE LET cst == DesignCastSized(0, RoundUp(8 + 4 * call.words, call.sa), d) IN
+                     IF cst.k = "panic" THEN Panic
+                     ELSE Some([at |-> 0, sv |-> cst.v.sv, fat |-> 8, first |-> Bytes(c.mem, 8, Min(4, 4 * call.words))]),
+          ds |-> ds]
     [] call.op = "dbg" ->      \* Debug formatting: only the outcome class is specified (C01: controlled)
          [o |-> IF ds.loaded = "none" THEN Skipped ELSE Unit, ds |-> ds]
     [] OTHER -> [o |-> [k |-> "unsupported"], ds |-> ds]
